@@ -1583,9 +1583,10 @@ func runC13(c *mon.Ctx) {
 		k.Class(fmt.Sprintf("predefined-charset:%d", which-1))
 	})
 
-	// many glyphs (thorough): 65535 glyphs, simple and CID-keyed
-	if c.Thorough() {
-		c.Stratum("huge", 30, func(k *mon.Case) {
+	// many glyphs: 65535 glyphs (the largest number there can be), simple and
+	// CID-keyed; two fonts in the quick tier
+	{
+		c.Stratum("huge", c.N(2, 30), func(k *mon.Case) {
 			r := k.Rng
 			n := 65535
 			if k.Index%3 == 2 {
@@ -1607,7 +1608,7 @@ func runC13(c *mon.Ctx) {
 		})
 	}
 
-	req := []string{"charset-format:0", "charset-format:1", "charset-format:2", "encoding:predefined-standard", "encoding:predefined-expert",
+	req := []string{"glyphs:65535", "charset-format:0", "charset-format:1", "charset-format:2", "encoding:predefined-standard", "encoding:predefined-expert",
 		"encoding:format-0", "encoding:format-1", "gen:encoding-partial-standard", "encoding:format-0+supplement", "encoding:format-1+supplement", "encoding:ranges=1", "encoding:ranges>=100",
 		"fdselect-format:0", "fdselect-format:3", "index-offsize:1", "index-offsize:2", "index-offsize:3",
 		"index-last-offset:255", "index-last-offset:256", "index-last-offset:257", "index-last-offset:65535", "index-last-offset:65536", "index-last-offset:65537",
@@ -1618,7 +1619,7 @@ func runC13(c *mon.Ctx) {
 		"real:exponent:+10..+99", "real:exponent:+100..+298", "real:next-to-1e300:inside", "real:above-1e300", "real:nine-digit-rounding-carries",
 		"real:exponent:-10..-99", "real:exponent:-100..-298", "real:next-to-1e-300:inside", "real:below-1e-300,normal"}
 	if c.Thorough() {
-		req = append(req, "index-offsize:4", "glyphs:65535", "glyphs:simple>=20000", "volume:>16MiB", "header-offsize:4")
+		req = append(req, "index-offsize:4", "glyphs:simple>=20000", "volume:>16MiB", "header-offsize:4")
 	}
 	c.Require(req...)
 }
